@@ -85,6 +85,7 @@ type Endpoint struct {
 	// the default capacity is net.core.rmem_default (212992), SetReadBuffer(n) sets 2*n (not below
 	// 2304), a queued datagram is charged with its buffer's true size (512 + its length rounded up to
 	// a multiple of 256: 768 for the small KNXnet/IP frames, i.e. about 277 of them by default).
+	ReuseAddr bool // udp-listen: created with SO_REUSEADDR (a multicast listen address)
 	RcvBuf    int
 	rcvQueued int
 	Dropped   [][]byte // datagrams the receive queue had no room for
@@ -153,7 +154,20 @@ func ListenUDP(network string, laddr *UDPAddr) (*UDPConn, error) {
 	if w.DialErr != nil {
 		return nil, w.DialErr
 	}
-	e := &Endpoint{Kind: "udp-listen", Local: laddr}
+	// Port sharing as net.ListenUDP does it: a socket listening on a multicast group address is
+	// created with SO_REUSEADDR (and bound to the wildcard address); any other listening socket owns
+	// its port. Two open sockets share a port only if both were created with the option.
+	reuse := laddr != nil && laddr.IP != nil && laddr.IP.IsMulticast()
+	if laddr != nil && laddr.Port != 0 {
+		for _, o := range w.Endpoints {
+			if o.Kind == "udp-listen" && !o.Closed {
+				if oa, ok := o.Local.(*UDPAddr); ok && oa != nil && oa.Port == laddr.Port && !(o.ReuseAddr && reuse) {
+					return nil, &net.OpError{Op: "listen", Net: network, Addr: laddr, Err: errors.New("bind: address already in use")}
+				}
+			}
+		}
+	}
+	e := &Endpoint{Kind: "udp-listen", Local: laddr, ReuseAddr: reuse}
 	w.add(e)
 	return &UDPConn{e}, nil
 }
